@@ -2,7 +2,6 @@
   CRProofs.XsdDocA — C03 whole-document validity, part A: points, shapes, values, times, positions, states, signal states.
 -/
 import CRProofs.XsdDoc
-import CRProofs.XsdEnumT
 
 namespace CR.C03
 open CR.Xsd CR.XmlNum CR.XmlW
